@@ -8,6 +8,7 @@ import (
 	"os"
 	"path/filepath"
 	"reflect"
+	"runtime"
 	"sort"
 	"strconv"
 	"strings"
@@ -442,6 +443,7 @@ func c04Sensitivity(run *ev.Run, tier string) (collections int, pairs int64) {
 		digest string
 	}
 	var all []coll
+	shapes := map[string][]coll{}
 	maxSize := 3
 	if tier == "thorough" {
 		maxSize = 4
@@ -486,6 +488,18 @@ func c04Sensitivity(run *ev.Run, tier string) (collections int, pairs int64) {
 			}
 		}
 		all = append(all, coll{strings.Join(desc, ", "), first})
+		// the same collection listed with duplicates: per duplicate pattern the digest must still
+		// tell collections apart (a content change must never cancel out)
+		if len(files) > 0 {
+			dbl := append(append([]string{}, files...), files...)
+			if d, err := hash.New().Hash(dbl); err == nil {
+				shapes["all-twice"] = append(shapes["all-twice"], coll{strings.Join(desc, ", "), d})
+			}
+			one := append(append([]string{}, files...), files[0])
+			if d, err := hash.New().Hash(one); err == nil {
+				shapes["first-twice"] = append(shapes["first-twice"], coll{strings.Join(desc, ", "), d})
+			}
+		}
 		if len(chosen) == maxSize {
 			return
 		}
@@ -506,8 +520,122 @@ func c04Sensitivity(run *ev.Run, tier string) (collections int, pairs int64) {
 			byDigest[c.digest] = c.desc
 		}
 	}
+	for shape, list := range shapes {
+		seen := map[string]string{}
+		for _, c := range list {
+			if other, ok := seen[c.digest]; ok {
+				run.Report(ev.Violation{Key: "sens-dup-collision " + shape + " {" + other + "} vs {" + c.desc + "}", Class: "different-collections-same-digest-with-duplicates",
+					What: fmt.Sprintf("listed %s, collections {%s} and {%s} have the same digest %.12s", shape, other, c.desc, c.digest), Case: map[string]any{"a": other, "b": c.desc, "shape": shape}})
+			} else {
+				seen[c.digest] = c.desc
+			}
+		}
+	}
 	n := int64(len(all))
-	return len(all), n * (n - 1) / 2
+	lp := c04LongLists(run)
+	return len(all), n*(n-1)/2 + lp
+}
+
+// c04LongLists: list sizes around and beyond the worker-count boundary. Under the
+// controlled NumCPU (1..3, default schedule) for sizes 0..13, and free-running at the
+// real NumCPU for sizes 0..4*NumCPU+2 and a few larger ones: the digest must not
+// depend on the order, must change when ANY single file changes, and must differ
+// between sizes.
+func c04LongLists(run *ev.Run) int64 {
+	root := filepath.Join(pool.Scratch, "long")
+	os.MkdirAll(root, 0o755)
+	defer os.RemoveAll(root)
+	maxN := 4*runtime.NumCPU() + 2
+	sizes := map[int]bool{}
+	for n := 0; n <= maxN; n++ {
+		sizes[n] = true
+	}
+	for _, n := range []int{8*runtime.NumCPU() - 1, 8 * runtime.NumCPU(), 8*runtime.NumCPU() + 1, 8*runtime.NumCPU() + 3, 16*runtime.NumCPU() + 5} {
+		sizes[n] = true
+	}
+	top := 0
+	for n := range sizes {
+		if n > top {
+			top = n
+		}
+	}
+	paths := make([]string, top)
+	for i := range paths {
+		paths[i] = filepath.Join(root, fmt.Sprintf("f%04d", i))
+		os.WriteFile(paths[i], []byte(fmt.Sprintf("content-%d", i)), 0o644)
+	}
+	var comparisons int64
+	check := func(label string, n int, hashFn func(l []string) (string, error), bySize map[string]int) {
+		l := paths[:n]
+		d0, err := hashFn(l)
+		if err != nil {
+			run.Report(ev.Violation{Key: fmt.Sprintf("long %s n=%d", label, n), Class: "error-on-readable-files", What: fmt.Sprintf("%s, %d readable files: Hash returned %v", label, n, err), Case: map[string]any{"n": n, "mode": label}})
+			return
+		}
+		if other, ok := bySize[d0]; ok {
+			run.Report(ev.Violation{Key: fmt.Sprintf("long-size %s n=%d", label, n), Class: "adding-files-keeps-digest", What: fmt.Sprintf("%s: lists of %d and %d files have the same digest", label, other, n), Case: map[string]any{"n": n, "mode": label}})
+		}
+		bySize[d0] = n
+		rev := make([]string, n)
+		for i := range rev {
+			rev[i] = l[n-1-i]
+		}
+		if d, _ := hashFn(rev); d != d0 {
+			run.Report(ev.Violation{Key: fmt.Sprintf("long-order %s n=%d", label, n), Class: "digest-depends-on-order", What: fmt.Sprintf("%s, %d files: reversing the list changes the digest", label, n), Case: map[string]any{"n": n, "mode": label}})
+		}
+		comparisons++
+		// change each single file in turn (all positions for short lists; first, last, middle and boundaries for long ones)
+		var positions []int
+		if n <= 16 {
+			for i := 0; i < n; i++ {
+				positions = append(positions, i)
+			}
+		} else {
+			positions = []int{0, 1, n / 2, n - 2, n - 1}
+			for w := 1; w <= runtime.NumCPU()*4; w *= 2 {
+				if n-w-1 > 1 {
+					positions = append(positions, n-w-1)
+				}
+			}
+		}
+		for _, i := range positions {
+			old, _ := os.ReadFile(paths[i])
+			os.WriteFile(paths[i], append(append([]byte{}, old...), '!'), 0o644)
+			d, _ := hashFn(l)
+			os.WriteFile(paths[i], old, 0o644)
+			comparisons++
+			if d == d0 {
+				run.Report(ev.Violation{Key: fmt.Sprintf("long-change %s n=%d i=%d", label, n, i), Class: "content-change-keeps-digest",
+					What: fmt.Sprintf("%s, list of %d files: changing the content of file %d leaves the digest unchanged", label, n, i), Case: map[string]any{"n": n, "i": i, "mode": label}})
+			}
+		}
+	}
+	// free-running, real NumCPU
+	by := map[string]int{}
+	var ns []int
+	for n := range sizes {
+		ns = append(ns, n)
+	}
+	sort.Ints(ns)
+	for _, n := range ns {
+		check(fmt.Sprintf("free-running NumCPU=%d", runtime.NumCPU()), n, func(l []string) (string, error) { return hash.New().Hash(l) }, by)
+	}
+	// controlled NumCPU, default schedule
+	for cpu := 1; cpu <= 3; cpu++ {
+		by := map[string]int{}
+		for n := 0; n <= 13; n++ {
+			check(fmt.Sprintf("controlled NumCPU=%d", cpu), n, func(l []string) (string, error) {
+				var d string
+				var err error
+				r := vsched.Run(vsched.Options{NumCPU: cpu, Budget: 200000}, func() { d, err = hash.New().Hash(l) })
+				if len(r.Panics) > 0 || r.Deadlock || r.Livelock {
+					return "", fmt.Errorf("execution did not complete: panics=%v deadlock=%v", r.Panics, r.Deadlock)
+				}
+				return d, err
+			}, by)
+		}
+	}
+	return comparisons
 }
 
 // ---------------------------------------------------------------------------
